@@ -531,7 +531,7 @@ step(void) {
   }
   /* environment answer: an ICMP port-unreachable notice read from the first session's socket (once per execution).  A datagram
    * session is not disconnected by it (the notice is advisory): the schedule of every queued message goes on unchanged */
-  if (budget > 0 && !icmp_done && !C->free_drops && n < VX_MAXALT && sess[0])
+  if (budget > 0 && !icmp_done && !C->free_drops && n < VX_MAXALT && sess[0] && nf == 0 /* while waiting for a timer */)
     ev[n].kind = EV_ICMP, ev[n].idx = 0, cost[n++] = 1;
   int c = vx_choose(n, cost, "step");
   switch (ev[c].kind) {
